@@ -12,7 +12,7 @@ case "$variant" in
   pinned) XF="-O1 -g0" ;;
   asan)   XF="-O1 -g1 -DNDEBUG -fsanitize=address -fno-omit-frame-pointer" ;;
   asanub) XF="-O1 -g1 -DNDEBUG -fsanitize=address,undefined -fno-sanitize=enum -fno-sanitize-recover=undefined -fno-omit-frame-pointer" ;;
-  tsan)   XF="-O1 -g1 -fsanitize=thread" ;;
+  tsan)   XF="-O1 -g1 -DNDEBUG -fsanitize=thread" ;;
   rel)    XF="-O1 -g0 -DNDEBUG" ;;
   relg)   XF="-O1 -g1 -DNDEBUG" ;;
   *) echo "unknown variant $variant" >&2; exit 2 ;;
